@@ -841,7 +841,7 @@ fn main() {
         for cfg in configs(args.tier) {
             for scn in scenarios(args.tier) {
                 for budget in args.tier.pick(vec![0usize, 1], vec![0, 1, 2, 99]) {
-                    let spec = json!({"cfg": cfg.to_json(), "scenario": scn.to_json(), "budget": budget, "cap": args.tier.pick(12000, 150000)});
+                    let spec = json!({"cfg": cfg.to_json(), "scenario": scn.to_json(), "budget": budget, "cap": args.tier.pick(12000, 40000)});
                     jobs.push(Job { name: format!("{}/{}/b{budget}", cfg.name, scn.label()), env: cfg.env(), args: vec!["--worker".into(), spec.to_string()] });
                 }
             }
